@@ -56,6 +56,12 @@ Body(k) ==
                         /\ data' = SubSeq(data, 1, Len(data) - 1) /\ UNCHANGED imr
   /\ UNCHANGED frames
   /\ Log(k, 0, pc', s', f', imr')
+\* ---- a computed jump inside the callee, done with the stack: MV BA,t ; MV [--S],BA ; RET  (three instructions, stack-neutral,
+\* no frame opened or closed: the RET consumes what the body itself pushed and lands at t in the current page)
+Dispatch(t) ==
+  /\ Len(acts) < MaxActs /\ frames # <<>> /\ Len(data) = frames[Len(frames)].d0 /\ Page(pc + 5) = Page(pc)
+  /\ pc' = Page(pc) + t /\ UNCHANGED <<s, f, imr, data, frames>>
+  /\ Log("Dispatch", t, pc', s, f, imr)
 \* ---- returns: enabled only when the body was stack-neutral
 Top == frames[Len(frames)]
 Neutral == frames # <<>> /\ Len(data) = Top.d0
@@ -73,6 +79,7 @@ Next == \/ \E t \in NearTargets : Call(t)
         \/ \E t \in FarTargets : CallF(t)
         \/ Ir
         \/ \E k \in {"NOP", "SC", "RC", "SETIMR", "PUSHF", "POPF"} : Body(k)
+        \/ \E t \in NearTargets : Dispatch(t + 64)
         \/ Ret \/ RetF \/ RetI
 Spec == Init /\ [][Next]_vars
 
